@@ -25,6 +25,8 @@ def run(tier, seed):
                 "alias": bool(r["single_cycle"] and (r["id"] + seed) % 2)}
         for i in range(0, len(pats), 48):
             ps = pats[i:i + 48]
+            # how the segments are given: variables pinned afterwards, Python constants, or a mixture
+            base["frameform"] = ["vars", "const", "mixed"][(i // 48 + r["id"] + seed) % 3]
             zjobs.append(dict(base, patterns=ps, expects=[r["ok"][p] for p in ps],
                               passed=[r["passed"][p] for p in ps], cross=[r["cross"][p] for p in ps]))
         ejobs.append(dict(base, expects=r["ok"], passed=r["passed"], cross=r["cross"]))
@@ -39,7 +41,7 @@ def run(tier, seed):
                            "single_cycle": job["single_cycle"], "direction": d},
                           f"crossable constraint (single_cycle={job['single_cycle']}) {d}; definition says {mm['expected']} {mm['why']}",
                           {"obj": job["obj"], "single_cycle": job["single_cycle"], "alias": job["alias"],
-                           "pattern": mm["pattern"], "segments_active": GR.bits_of(mm["pattern"], m),
+                           "frameform": job.get("frameform", "vars"), "pattern": mm["pattern"], "segments_active": GR.bits_of(mm["pattern"], m),
                            "expected": mm["expected"], "observed": mm["observed"], "why": mm["why"],
                            "passed_mask": job["passed"][job["patterns"].index(mm["pattern"])],
                            "cross_mask": job["cross"][job["patterns"].index(mm["pattern"])]})
@@ -48,7 +50,11 @@ def run(tier, seed):
     for t, (job, e) in enumerate(zip(ejobs, emitted)):
         e.update({"t": t, "expects": job["expects"]})
         erecs.append(e)
-    verdicts = GC.judge_emits(chk, erecs)
+    def cross_jobs(j):
+        ps = list(range(len(j["expects"])))
+        return [dict(j, prim=True, patterns=ps[i:i + 48], expects=j["expects"][i:i + 48], passed=j["passed"][i:i + 48],
+                     cross=j["cross"][i:i + 48]) for i in range(0, len(ps), 48)]
+    verdicts = GC.judge_emits(chk, erecs, jobs=ejobs, fallback=(GR.run_cross, cross_jobs))
     for t, job in enumerate(ejobs):
         v = verdicts[t]
         chk.note_case(f"emit/cross/{job['id']}", len(job["obj"]["graph"]["edges"]) >= 2)
